@@ -450,7 +450,9 @@ def compile(object, return_code=False):
             return code[x]
         elif isinstance(x, str):
             # ################## str ##################
-            return Literal(f'"{x}"', block=code.root_block)
+            # Strings with quotes, backslashes or control characters must be escaped to form a valid literal
+            literal = f'"{x}"' if x.isprintable() and '"' not in x and "\\" not in x else repr(x)
+            return Literal(literal, block=code.root_block)
         elif isinstance(x, int | float | np.integer | np.floating | bool):
             # ################## Numeric ##################
             return Literal(str(x), block=code.root_block)
